@@ -131,6 +131,49 @@ func leafEqual(a, b attr.Value) bool {
 	return ta.Equal(tb)
 }
 
+// unknownPathsSpec is unknownPaths restricted to what the converters own: attributes of an
+// object that the spec does not describe (injected, schema-only attributes) are skipped at every depth.
+func unknownPathsSpec(a *spec.Attr, v attr.Value, path string, out *[]string) {
+	if v == nil {
+		return
+	}
+	var sub *spec.Msg
+	if a != nil {
+		sub = a.Msg
+	}
+	switch x := v.(type) {
+	case types.Object:
+		if x.Unknown {
+			*out = append(*out, path)
+		}
+		for k, e := range x.Attrs {
+			ca := findAttr(sub, k)
+			if sub != nil && ca == nil {
+				continue // injected
+			}
+			unknownPathsSpec(ca, e, joinPath(path, k), out)
+		}
+	case types.List:
+		if x.Unknown {
+			*out = append(*out, path)
+		}
+		for i, e := range x.Elems {
+			unknownPathsSpec(elemAttr(a), e, fmt.Sprintf("%s[%d]", path, i), out)
+		}
+	case types.Map:
+		if x.Unknown {
+			*out = append(*out, path)
+		}
+		for k, e := range x.Elems {
+			unknownPathsSpec(elemAttr(a), e, path+"["+k+"]", out)
+		}
+	default:
+		if v.IsUnknown() {
+			*out = append(*out, path)
+		}
+	}
+}
+
 func unknownPaths(v attr.Value, path string, out *[]string) {
 	if v == nil {
 		return
@@ -183,7 +226,7 @@ func echoWalk(r *Result, w interface{}, m *spec.Msg, plan, res types.Object, par
 			continue
 		}
 		var unk []string
-		unknownPaths(rv, p, &unk)
+		unknownPathsSpec(a, rv, p, &unk)
 		if len(unk) > 0 {
 			r.violate("unknown-after-echo", ch, fmt.Sprintf("unknown values remain at %v", unk), w)
 		}
